@@ -234,6 +234,19 @@ def backend_emission(rep, cases, L, wd, k):
                                            "param_kind": [p_["kind"] for p_ in c["sig"]["params"]], "ret": c["sig"]["ret"]["kind"]},
                                           {"sig": c["sig"], "rust": items[n], "parameter": pn, "definition_lifetime": d,
                                            "expected_edge_arrays": sorted(rs), "emitted": arrays})
+            if b == "kotlin" and c["sig"]["ret"]["kind"] in ("rst1", "rst2"):
+                # the returned struct's constructor takes one edge list per lifetime of its DEFINITION, in that order: the i-th list
+                # is the one of the lifetime written in the i-th slot of the return type
+                kt_ = [os.path.join(r_, f_) for r_, _, fs_ in os.walk(out) for f_ in fs_ if f_ == "H%d.kt" % n]
+                mm = re.search(r'val returnStruct = \w+\(returnVal((?:, \w+)*)\)', open(kt_[0]).read()) if kt_ else None
+                if mm:
+                    passed = [x.strip() for x in mm.group(1).split(",") if x.strip()]
+                    slots_ = [x for x in c["sig"]["ret"]["slots"]]
+                    want_order = [x + "Edges" for x in slots_ if x not in ("static",)]
+                    if "static" not in slots_ and passed != want_order:
+                        rep.violation({"leg": "emission", "backend": "kotlin", "what": "edge lists passed to the returned struct in another order than its definition's lifetimes",
+                                       "ret": c["sig"]["ret"]["kind"]},
+                                      {"sig": c["sig"], "rust": items[n], "expected_arguments": want_order, "emitted": passed})
             miss = want - got
             if miss:
                 rep.violation({"leg": "emission", "backend": b, "what": "edge not attached", "ret": c["sig"]["ret"]["kind"],
